@@ -429,6 +429,66 @@ def translate_make_mapping_each(tree):
         "  else none\n")
 
 
+def translate_make_mapping_each_set(tree):
+    """the reference implementation of the k-fold annihilation maps (nested function `make_mapping_each_set` of
+    FciGraphSet._sectors_link, fci_graph_set.py): the body of the loop over the source strings for one mask, matched
+    statement by statement"""
+    fn = None
+    for node in ast.walk(tree):
+        if isinstance(node, ast.FunctionDef) and node.name == "make_mapping_each_set":
+            fn = node
+    if fn is None:
+        raise Unsupported("make_mapping_each_set not found in fci_graph_set.py")
+
+    def need(cond, what):
+        if not cond:
+            raise Unsupported("make_mapping_each_set: reviewed shape broken at " + what)
+    outer = next((n for n in fn.body if isinstance(n, ast.For) and ast.unparse(n.iter) == "range(msize)"), None)
+    need(outer is not None, "loop over the masks")
+    osrc = [ast.unparse(x) for x in outer.body]
+    need(osrc[0] == f"mask = int(combmap[{outer.target.id}])" and osrc[1] == "ops = integer_index(mask)", "mask and its occupation list")
+    inner = next((n for n in outer.body if isinstance(n, ast.For) and ast.unparse(n.iter) == "istrings"), None)
+    need(inner is not None and len(inner.body) == 8, "loop over the source strings")
+    b = inner.body
+    sb = [ast.unparse(x) for x in b]
+    need(sb[0] == f"source = int({inner.target.id})", "source")
+    need(isinstance(b[1], ast.If) and ast.unparse(b[1].test) == "source & mask ^ mask != 0" and ast.unparse(b[1].body[0]) == "continue"
+         and not b[1].orelse, "admission test")
+    need(isinstance(b[2], ast.Assign) and ast.unparse(b[2].targets[0]) == "parity" and isinstance(b[2].value, ast.BinOp)
+         and isinstance(b[2].value.op, ast.Mult) and isinstance(b[2].value.left, ast.Call)
+         and [ast.unparse(x) for x in b[2].value.left.args] == ["source", "ops[-1]"] and ast.unparse(b[2].value.right) == "len(ops)", "initial parity")
+    f1 = ast.unparse(b[2].value.left.func)
+    need(isinstance(b[3], ast.Assign) and ast.unparse(b[3].targets[0]) == "target" and isinstance(b[3].value, ast.Call)
+         and [ast.unparse(x) for x in b[3].value.args] == ["source", "ops[-1]"], "initial target")
+    m1 = ast.unparse(b[3].value.func)
+    lp = b[4]
+    need(isinstance(lp, ast.For) and ast.unparse(lp.iter) == "reversed(range(len(ops) - 1))" and len(lp.body) == 2, "descending loop")
+    v = lp.target.id
+    p_, t_ = lp.body
+    need(isinstance(p_, ast.AugAssign) and isinstance(p_.op, ast.Add) and ast.unparse(p_.target) == "parity"
+         and isinstance(p_.value, ast.BinOp) and isinstance(p_.value.op, ast.Mult) and ast.unparse(p_.value.left) == f"{v} + 1"
+         and isinstance(p_.value.right, ast.Call)
+         and [ast.unparse(x) for x in p_.value.right.args] == ["source", f"ops[{v}]", f"ops[{v} + 1]"], "parity update")
+    f2 = ast.unparse(p_.value.right.func)
+    need(isinstance(t_, ast.Assign) and ast.unparse(t_.targets[0]) == "target" and isinstance(t_.value, ast.Call)
+         and [ast.unparse(x) for x in t_.value.args] == ["target", f"ops[{v}]"], "target update")
+    m2 = ast.unparse(t_.value.func)
+    need(sb[5] == "mapping_down[anni, count, :] = (source, target, parity)" and sb[6] == "mapping_up[anni, count, :] = (target, source, parity)"
+         and sb[7] == "count += 1", "stored entries")
+    for name, allowed in ((f1, ("count_bits_above",)), (f2, ("count_bits_between",)), (m1, ("unset_bit", "set_bit")), (m2, ("unset_bit", "set_bit"))):
+        need(name in allowed, f"helper {name}")
+    return (
+        f"/-- `src/fqe/fci_graph_set.py`, `make_mapping_each_set` (line {fn.lineno}): what one source string contributes for one\n"
+        "    annihilation mask with occupation list `ops`: `(target, parity count)`; `none` = not admitted -/\n"
+        "def mmes_entry (source mask : Int) (ops : List Int) : Option (Int × Int) :=\n"
+        "  if decide (pyXor (pyAnd source mask) mask ≠ (0 : Int)) then none else\n"
+        f"  let parity := {f1} source (ops.getD (ops.length - 1) 0) * (ops.length : Int)\n"
+        f"  let target := {m1} source (ops.getD (ops.length - 1) 0)\n"
+        "  let st := (List.range (ops.length - 1)).reverse.foldl (fun (st : Int × Int) iop =>\n"
+        f"    ({m2} st.1 (ops.getD iop 0), st.2 + ((iop : Int) + 1) * {f2} source (ops.getD iop 0) (ops.getD (iop + 1) 0))) (target, parity)\n"
+        "  some (st.1, st.2)\n")
+
+
 def main():
     chunks = []
     known = {}
@@ -463,6 +523,8 @@ def main():
         summary.append((lean_name, False))
     chunks.append(translate_make_mapping_each(ast.parse(open(os.path.join(REPO, "src/fqe/fci_graph.py")).read())))
     summary.append(("mme_entry", False))
+    chunks.append(translate_make_mapping_each_set(ast.parse(open(os.path.join(REPO, "src/fqe/fci_graph_set.py")).read())))
+    summary.append(("mmes_entry", False))
     hdr = ("/-\n  GENERATED by harness/translate/pyint.py from the Python sources of /repo (bitstring.py, util.py,\n"
            "  _fqe_control.py).  Do not edit: regenerated on every check run.\n-/\n"
            "import FqeVerif.Lemmas.PyPrelude\nset_option linter.unusedVariables false\nnamespace GenPy\nopen PyPrelude\n\n")
